@@ -183,6 +183,45 @@ func c15DrawMount(rt *rapid.T) c15MountCfg {
 
 // ---- role generator
 
+// allowed_other_sans of generated roles: absent, catch-all, one OID with any value, one OID with a value pattern,
+// two patterns for one OID, two OIDs
+var c15OtherSANRoles = [][]string{nil, {"1.3.6.1.4.1.311.20.2.3;utf8:*@example.com"}, nil, {"*"}, {"1.3.6.1.4.1.311.20.2.3;UTF8:*@example.com", "1.3.6.1.4.1.311.20.2.3;UTF-8:svc-*"},
+	{"1.3.6.1.4.1.311.20.2.3;UTF8:*"}, {"1.3.6.1.4.1.311.20.2.3;utf8:*@example.com", "1.2.3.4;UTF8:x*"}}
+
+// other-SAN values requests are built from (several values of one OID are an ordinary request: a user with several UPNs)
+var c15OtherSANPool = []string{"1.3.6.1.4.1.311.20.2.3;UTF8:user@example.com", "1.3.6.1.4.1.311.20.2.3;UTF8:user@evil.net", "1.2.3.4;UTF8:x",
+	"1.3.6.1.4.1.311.20.2.3;UTF8:admin@example.com", "1.3.6.1.4.1.311.20.2.3;UTF8:svc-build", "1.3.6.1.4.1.311.20.2.3;UTF8:root", "1.2.3.4;UTF8:xy", "1.2.3.4;UTF8:y",
+	"1.3.6.1.4.1.311.20.2.3;UTF8:ops@example.com"}
+
+func c15OtherSANValueAllowed(r *c15Role, v string) bool {
+	p := strings.SplitN(v, ";", 2)
+	return c15OtherSANAllowed(r, c15OtherName{OID: p[0], Value: strings.SplitN(p[1], ":", 2)[1]})
+}
+
+// c15DrawOthers draws the other SANs of one request (API parameter or CSR): 1-3 values the role admits (or, when the
+// role admits none of the pool / hostile is set, possibly values it does not admit), in the generated order; with
+// hostile set one value the role does NOT admit is inserted at a generated position among them.
+func c15DrawOthers(rt *rapid.T, r *c15Role, legit, hostile bool, label string) []string {
+	var good, bad []string
+	for _, v := range c15OtherSANPool {
+		if c15OtherSANValueAllowed(r, v) {
+			good = append(good, v)
+		} else {
+			bad = append(bad, v)
+		}
+	}
+	var out []string
+	if len(good) > 0 {
+		out = rapid.SliceOfNDistinct(rapid.SampledFrom(good), 1, min(3, len(good)), rapid.ID[string]).Draw(rt, label)
+	}
+	if len(bad) > 0 && (hostile || len(good) == 0 && !legit) {
+		b := rapid.SampledFrom(bad).Draw(rt, label+"Forbidden")
+		at := rapid.IntRange(0, len(out)).Draw(rt, label+"ForbiddenAt")
+		out = append(out[:at:at], append([]string{b}, out[at:]...)...)
+	}
+	return out
+}
+
 var (
 	c15BaseDomains = []string{"example.com", "foo.example.com", "corp.internal", "example.org", "a.b.c.test", "bücher.example", "xn--bcher-kva.example", "myhost", "EXAMPLE.net", "localhost"}
 	c15GlobDomains = []string{"*.example.com", "ftp*.example.com", "*example.com", "foo.*.example.com", "*.*.example.com", "*-api.corp.internal", "web-*.example.org"}
@@ -222,7 +261,7 @@ func c15DrawRole(rt *rapid.T, m *c15Mount) *c15Role {
 	r.AllowIPSANs = vxChance(rt, "allow_ip_sans", 75)
 	r.IPCIDRs = rapid.SampledFrom([][]string{{"10.0.0.0/8"}, nil, {"192.168.0.0/16", "fd00::/8"}, nil}).Draw(rt, "allowed_ip_sans_cidr")
 	r.URISANs = rapid.SampledFrom([][]string{nil, nil, {"spiffe://example.com/*"}, {"https://*.example.com/x"}, {"*"}}).Draw(rt, "allowed_uri_sans")
-	r.OtherSANs = rapid.SampledFrom([][]string{nil, nil, {"*"}, {"1.3.6.1.4.1.311.20.2.3;UTF8:*"}, {"1.3.6.1.4.1.311.20.2.3;utf8:*@example.com"}}).Draw(rt, "allowed_other_sans")
+	r.OtherSANs = rapid.SampledFrom(c15OtherSANRoles).Draw(rt, "allowed_other_sans")
 	switch n := rapid.IntRange(0, 19).Draw(rt, "key_type"); {
 	case n < 9:
 		r.KeyType = "ec"
@@ -475,6 +514,7 @@ type c15Req struct {
 	Alts      []string
 	IPs, URIs []string
 	Others    []string
+	CsrOthers []string // otherName entries of the CSR's SAN extension, in this order
 	CsrCN     string
 	CsrNames  []string // DNS names and e-mail addresses in the CSR
 	CsrIPs    []string
@@ -589,7 +629,6 @@ func c15DrawReq(rt *rapid.T, m *c15Mount, r *c15Role) *c15Req {
 	q.ExcludeCN = vxChance(rt, "exclude_cn_from_sans", 12)
 	ipPool := []string{"10.1.2.3", "192.168.1.1", "8.8.8.8", "fd00::1", "2001:db8::1", "127.0.0.1"}
 	uriPool := []string{"spiffe://example.com/svc", "spiffe://evil.net/svc", "https://www.example.com/x", "https://a.example.com.evil.net/x"}
-	otherPool := []string{"1.3.6.1.4.1.311.20.2.3;UTF8:user@example.com", "1.3.6.1.4.1.311.20.2.3;UTF8:user@evil.net", "1.2.3.4;UTF8:x"}
 	if mode == "legit" { // only SANs the role admits (constructed with the model's own rules)
 		keep := func(pool []string, ok func(string) bool) (out []string) {
 			for _, v := range pool {
@@ -601,10 +640,6 @@ func c15DrawReq(rt *rapid.T, m *c15Mount, r *c15Role) *c15Req {
 		}
 		ipPool = keep(ipPool, func(v string) bool { return c15IPAllowed(r, net.ParseIP(v)) })
 		uriPool = keep(uriPool, func(v string) bool { return c15URIAllowed(r, v) })
-		otherPool = keep(otherPool, func(v string) bool {
-			p := strings.SplitN(v, ";", 2)
-			return c15OtherSANAllowed(r, c15OtherName{OID: p[0], Value: strings.SplitN(p[1], ":", 2)[1]})
-		})
 	}
 	if vxChance(rt, "withIP", 25) && len(ipPool) > 0 {
 		q.IPs = rapid.SliceOfNDistinct(rapid.SampledFrom(ipPool), 1, min(2, len(ipPool)), rapid.ID[string]).Draw(rt, "ip_sans")
@@ -612,8 +647,23 @@ func c15DrawReq(rt *rapid.T, m *c15Mount, r *c15Role) *c15Req {
 	if vxChance(rt, "withURI", 10) && len(uriPool) > 0 {
 		q.URIs = rapid.SliceOfNDistinct(rapid.SampledFrom(uriPool), 1, min(2, len(uriPool)), rapid.ID[string]).Draw(rt, "uri_sans")
 	}
-	if vxChance(rt, "withOther", 6) && len(otherPool) > 0 {
-		q.Others = []string{rapid.SampledFrom(otherPool).Draw(rt, "other_sans")}
+	// other SANs: independent of the name mode (a request whose host names are all fine may still carry an other
+	// SAN value the role does not admit, anywhere among admitted ones)
+	otherP := 6
+	if len(r.OtherSANs) > 0 {
+		otherP = 30
+	}
+	withOther := vxChance(rt, "withOther", otherP)
+	otherHostile := withOther && vxChance(rt, "otherHostile", 40)
+	otherInCSR := false
+	if withOther {
+		otherInCSR = q.Endpoint != "issue" && q.Endpoint != "issuer-issue" && vxChance(rt, "otherInCSR", 50)
+		vals := c15DrawOthers(rt, r, mode == "legit", otherHostile, "other_sans")
+		if otherInCSR {
+			q.CsrOthers = vals
+		} else {
+			q.Others = vals
+		}
 	}
 	lifetime := rapid.IntRange(0, 9).Draw(rt, "lifetime")
 	if mode == "legit" && lifetime >= 8 && r.NotAfterBound != "" && r.NotAfterBound != "permit" && !q.verbatim() {
@@ -768,6 +818,13 @@ func (q *c15Req) buildCSR() error {
 		}
 		tpl.URIs = append(tpl.URIs, pu)
 	}
+	if len(q.CsrOthers) > 0 {
+		ext, err := c15SANExtension(tpl, q.CsrOthers)
+		if err != nil {
+			return err
+		}
+		tpl.ExtraExtensions = append(tpl.ExtraExtensions, ext)
+	}
 	if q.CsrCA {
 		tpl.ExtraExtensions = append(tpl.ExtraExtensions, pkix.Extension{Id: c15OIDBasicConstraints, Critical: true, Value: []byte{0x30, 0x03, 0x01, 0x01, 0xff}})
 	}
@@ -783,6 +840,55 @@ func (q *c15Req) buildCSR() error {
 	}
 	q.csrPEM = string(pem.EncodeToMemory(&pem.Block{Type: "CERTIFICATE REQUEST", Bytes: der}))
 	return nil
+}
+
+// c15SANExtension renders a subjectAltName extension (RFC 5280 4.2.1.6) with the template's DNS / e-mail / IP / URI
+// names and, before them, otherName entries "<oid>;UTF8:<value>" in the order given (crypto/x509 has no field for them).
+func c15SANExtension(tpl *x509.CertificateRequest, others []string) (pkix.Extension, error) {
+	var names []asn1.RawValue
+	for _, o := range others {
+		p := strings.SplitN(o, ";", 2)
+		var oid asn1.ObjectIdentifier
+		for _, part := range strings.Split(p[0], ".") {
+			n := 0
+			fmt.Sscanf(part, "%d", &n)
+			oid = append(oid, n)
+		}
+		oidDER, err := asn1.Marshal(oid)
+		if err != nil {
+			return pkix.Extension{}, err
+		}
+		strDER, err := asn1.Marshal(asn1.RawValue{Class: asn1.ClassUniversal, Tag: asn1.TagUTF8String, Bytes: []byte(strings.SplitN(p[1], ":", 2)[1])})
+		if err != nil {
+			return pkix.Extension{}, err
+		}
+		valDER, err := asn1.Marshal(asn1.RawValue{Class: asn1.ClassContextSpecific, Tag: 0, IsCompound: true, Bytes: strDER})
+		if err != nil {
+			return pkix.Extension{}, err
+		}
+		names = append(names, asn1.RawValue{Class: asn1.ClassContextSpecific, Tag: 0, IsCompound: true, Bytes: append(oidDER, valDER...)})
+	}
+	for _, e := range tpl.EmailAddresses {
+		names = append(names, asn1.RawValue{Class: asn1.ClassContextSpecific, Tag: 1, Bytes: []byte(e)})
+	}
+	for _, d := range tpl.DNSNames {
+		names = append(names, asn1.RawValue{Class: asn1.ClassContextSpecific, Tag: 2, Bytes: []byte(d)})
+	}
+	for _, u := range tpl.URIs {
+		names = append(names, asn1.RawValue{Class: asn1.ClassContextSpecific, Tag: 6, Bytes: []byte(u.String())})
+	}
+	for _, ip := range tpl.IPAddresses {
+		b := ip.To4()
+		if b == nil {
+			b = ip.To16()
+		}
+		names = append(names, asn1.RawValue{Class: asn1.ClassContextSpecific, Tag: 7, Bytes: b})
+	}
+	der, err := asn1.Marshal(names)
+	if err != nil {
+		return pkix.Extension{}, err
+	}
+	return pkix.Extension{Id: c15OIDSubjectAltName, Value: der}, nil
 }
 
 func (q *c15Req) path() string {
@@ -1007,6 +1113,28 @@ func c15RunOne(rt *rapid.T, rec *verifx.Recorder, m *c15Mount, role *c15Role, q 
 		nontrivial = true
 		rec.Class("request-ip-san-outside-role-cidrs", 1)
 	}
+	if eff != nil && !verbatim {
+		effOthers := append([]string{}, q.Others...)
+		if q.usesCSR() && eff.UseCSRSANs {
+			effOthers = append(effOthers, q.CsrOthers...)
+		}
+		if len(effOthers) > 1 {
+			rec.Class("request-with-several-other-sans", 1)
+		}
+		nBad := 0
+		for _, o := range effOthers {
+			if !c15OtherSANValueAllowed(eff, o) {
+				nBad++
+			}
+		}
+		if nBad > 0 {
+			nontrivial = true
+			rec.Class("request-other-san-outside-role", 1)
+			if nBad < len(effOthers) {
+				rec.Class("request-other-san-outside-role-among-admitted-ones", 1)
+			}
+		}
+	}
 
 	t0 := time.Now()
 	var resp *logical.Response
@@ -1021,7 +1149,7 @@ func c15RunOne(rt *rapid.T, rec *verifx.Recorder, m *c15Mount, role *c15Role, q 
 		d2 := map[string]any{}
 		for k, v := range data {
 			if k == "csr" {
-				v = fmt.Sprintf("<CSR key=%s cn=%q names=%v ips=%v uris=%v ca=%v ku=%v>", vxKeys()[q.Key].name, q.CsrCN, q.CsrNames, q.CsrIPs, q.CsrURIs, q.CsrCA, q.CsrKU)
+				v = fmt.Sprintf("<CSR key=%s cn=%q names=%v ips=%v uris=%v others=%v ca=%v ku=%v>", vxKeys()[q.Key].name, q.CsrCN, q.CsrNames, q.CsrIPs, q.CsrURIs, q.CsrOthers, q.CsrCA, q.CsrKU)
 			}
 			d2[k] = v
 		}
@@ -1045,7 +1173,7 @@ func c15RunOne(rt *rapid.T, rec *verifx.Recorder, m *c15Mount, role *c15Role, q 
 	if q.NotAfterOff != 0 {
 		digestNA = ""
 	}
-	digest := verifx.Digest(fmt.Sprintf("%+v", m.cfg), fmt.Sprint(role.data()), path, q.CN, q.Alts, q.IPs, q.URIs, q.Others, q.CsrCN, q.CsrNames, q.CsrCA, q.CsrKU, q.TTL, digestNA, q.NotAfterOff, q.Key)
+	digest := verifx.Digest(fmt.Sprintf("%+v", m.cfg), fmt.Sprint(role.data()), path, q.CN, q.Alts, q.IPs, q.URIs, q.Others, q.CsrOthers, q.CsrCN, q.CsrNames, q.CsrCA, q.CsrKU, q.TTL, digestNA, q.NotAfterOff, q.Key)
 
 	if err != nil || resp == nil {
 		if err == nil {
@@ -1320,15 +1448,20 @@ func c15RunOne(rt *rapid.T, rec *verifx.Recorder, m *c15Mount, role *c15Role, q 
 		if !c15OtherSANAllowed(role, o) {
 			fail("othersan-not-allowed", "other SAN %s=%q does not match allowed_other_sans %v", o.OID, o.Value, role.OtherSANs)
 		}
+		// documented sources: the other_sans parameter; with use_csr_sans the CSR's (the engine takes both then)
+		wantOthers := append([]string{}, q.Others...)
+		if q.usesCSR() && role.UseCSRSANs {
+			wantOthers = append(wantOthers, q.CsrOthers...)
+		}
 		found := false
-		for _, w := range q.Others {
+		for _, w := range wantOthers {
 			p := strings.SplitN(w, ";", 2)
 			if p[0] == o.OID && strings.HasSuffix(p[1], ":"+o.Value) {
 				found = true
 			}
 		}
 		if !found {
-			fail("othersan-not-requested", "other SAN %s=%q was not requested (%v)", o.OID, o.Value, q.Others)
+			fail("othersan-not-requested", "other SAN %s=%q was not requested (other_sans %v, CSR %v, use_csr_sans=%v)", o.OID, o.Value, q.Others, q.CsrOthers, role.UseCSRSANs)
 		}
 	}
 }
